@@ -6,15 +6,16 @@
 
 #[derive(Clone, Copy, PartialEq, Eq, Debug)]
 pub enum Key {
-    Priority,
+    // in the iteration order of the real BTreeMap<String, _>: alphabetical
+    Kind,
     Left,
-    Right,
     Nops,
     Nopse,
-    Kind,
-    User,
+    Priority,
+    Right,
+    User, // any other key; modelled as sorting last
 }
-pub const KEYS: [Key; 7] = [Key::Priority, Key::Left, Key::Right, Key::Nops, Key::Nopse, Key::Kind, Key::User];
+pub const KEYS: [Key; 7] = [Key::Kind, Key::Left, Key::Nops, Key::Nopse, Key::Priority, Key::Right, Key::User];
 fn slot(k: Key) -> usize {
     k as usize
 }
@@ -153,32 +154,37 @@ pub fn inherit(rule: &Rule, mut new_production: Production) -> Production {
 #[cfg(kani)]
 pub mod proofs {
     use super::*;
+    const PRIO: usize = Key::Priority as usize;
+    const LEFT: usize = Key::Left as usize;
+    const RIGHT: usize = Key::Right as usize;
+    const NOPS: usize = Key::Nops as usize;
+    const NOPSE: usize = Key::Nopse as usize;
+    const KIND: usize = Key::Kind as usize;
+    const USER: usize = Key::User as usize;
 
     fn any_meta() -> Meta {
         let mut m = Meta { slots: [None; 7] };
         if kani::any() {
             let p: u32 = kani::any();
             kani::assume(p <= 1000);
-            m.slots[0] = Some(ConstVal::Int(IntV(p)));
+            m.slots[PRIO] = Some(ConstVal::Int(IntV(p)));
         }
-        let mut i = 1;
-        while i <= 4 {
+        for i in [LEFT, RIGHT, NOPS, NOPSE] {
             if kani::any() {
                 m.slots[i] = Some(ConstVal::Bool(true));
             }
-            i += 1;
         }
         if kani::any() {
-            m.slots[5] = Some(ConstVal::String(StrV(kani::any())));
+            m.slots[KIND] = Some(ConstVal::String(StrV(kani::any())));
         }
         if kani::any() {
-            m.slots[6] = Some(ConstVal::Int(IntV(kani::any())));
+            m.slots[USER] = Some(ConstVal::Int(IntV(kani::any())));
         }
         m
     }
 
     fn prio_of(m: &Meta) -> Option<u32> {
-        match m.slots[0] {
+        match m.slots[PRIO] {
             Some(ConstVal::Int(i)) => Some(i.0),
             _ => None,
         }
@@ -186,7 +192,7 @@ pub mod proofs {
     fn assoc_of(m: &Meta) -> Option<Associativity> {
         // a grammar cannot write both keywords in one meta block in a meaningful way; the
         // later one applies in the code, so draw at most one per level
-        match (m.slots[1].is_some(), m.slots[2].is_some()) {
+        match (m.slots[LEFT].is_some(), m.slots[RIGHT].is_some()) {
             (true, false) => Some(Associativity::Left),
             (false, true) => Some(Associativity::Right),
             _ => None,
@@ -200,8 +206,8 @@ pub mod proofs {
         let rule = Rule { meta: any_meta() };
         let pm = any_meta();
         // at most one associativity keyword per level
-        kani::assume(!(rule.meta.slots[1].is_some() && rule.meta.slots[2].is_some()));
-        kani::assume(!(pm.slots[1].is_some() && pm.slots[2].is_some()));
+        kani::assume(!(rule.meta.slots[LEFT].is_some() && rule.meta.slots[RIGHT].is_some()));
+        kani::assume(!(pm.slots[LEFT].is_some() && pm.slots[RIGHT].is_some()));
         let is_cross = assoc_of(&pm).is_some() && assoc_of(&rule.meta).is_some() && assoc_of(&pm) != assoc_of(&rule.meta);
         kani::assume(is_cross == cross);
         let p = inherit(&rule, Production { meta: pm, prio: DEFAULT_PRIORITY, kind: None, assoc: Associativity::None, nops: false, nopse: false });
@@ -210,24 +216,22 @@ pub mod proofs {
         assert!(p.prio == want_prio, "C09 priority: production's own, else the rule's, else 10");
         let want_assoc = assoc_of(&pm).or(assoc_of(&rule.meta)).unwrap_or(Associativity::None);
         assert!(p.assoc == want_assoc, "C09 associativity: production's own, else the rule's, else none");
-        assert!(p.nops == (pm.slots[3].is_some() || rule.meta.slots[3].is_some()), "C09 nops: production's own or inherited");
-        assert!(p.nopse == (pm.slots[4].is_some() || rule.meta.slots[4].is_some()), "C09 nopse: production's own or inherited");
-        let want_kind = match (pm.slots[5], rule.meta.slots[5]) {
+        assert!(p.nops == (pm.slots[NOPS].is_some() || rule.meta.slots[NOPS].is_some()), "C09 nops: production's own or inherited");
+        assert!(p.nopse == (pm.slots[NOPSE].is_some() || rule.meta.slots[NOPSE].is_some()), "C09 nopse: production's own or inherited");
+        let want_kind = match (pm.slots[KIND], rule.meta.slots[KIND]) {
             (Some(ConstVal::String(s)), _) => Some(KindName(s.0)),
             (None, Some(ConstVal::String(s))) => Some(KindName(s.0)),
             _ => None,
         };
         assert!(p.kind == want_kind, "C09 kind: production's own, else the rule's");
         // user keys stay in the meta map: production's own value, else the rule's
-        let want_user = pm.slots[6].or(rule.meta.slots[6]);
-        assert!(p.meta.slots[6] == want_user, "C09 user meta-data: production's own, else the rule's");
+        let want_user = pm.slots[USER].or(rule.meta.slots[USER]);
+        assert!(p.meta.slots[USER] == want_user, "C09 user meta-data: production's own, else the rule's");
         // the disambiguation keys are consumed (mapped to fields)
-        let mut i = 0;
-        while i <= 5 {
+        for i in [PRIO, LEFT, RIGHT, NOPS, NOPSE, KIND] {
             assert!(p.meta.slots[i].is_none(), "C09 mapped keys are removed from the meta map");
-            i += 1;
         }
-        (prio_of(&pm), prio_of(&rule.meta), assoc_of(&pm), assoc_of(&rule.meta), pm.slots[6].is_some() && rule.meta.slots[6].is_some())
+        (prio_of(&pm), prio_of(&rule.meta), assoc_of(&pm), assoc_of(&rule.meta), pm.slots[USER].is_some() && rule.meta.slots[USER].is_some())
     }
 
     #[kani::proof]
